@@ -371,7 +371,11 @@ def r_bound(E):
                 and isinstance(n.ctx, ast.Load) and n.attr not in branches:
             m = pm.find_method("ServerBase", n.attr)[1]
             par = getattr(n, "_parent", None)
-            called = isinstance(par, ast.Call) and par.func is n
+            # called for its value (a call made for its effect only — a check that raises — is not a sizing branch)
+            called = isinstance(par, ast.Call) and par.func is n and (
+                not isinstance(getattr(par, "_parent", None), ast.Expr)
+                or (m is not None and any(isinstance(w, ast.Assign) and norm(w.targets[0]) == "self.nb_of_instances"
+                                          for w in ast.walk(m))))
             if m is not None and not is_property(m) and (isinstance(par, ast.Dict) or called) \
                     and n.attr not in ("update_nb_of_instances",):
                 branches.append(n.attr)
@@ -381,8 +385,12 @@ def r_bound(E):
         res.undecided.append(f"ServerBase.update_nb_of_instances dispatches to {branches}: three sizing branches expected")
     targets = [(SB, f"ServerBase.{b}") for b in branches] + [(ST, "Storage.update_nb_of_instances")]
     for suffix, q in targets:
-        rel, fn = pm.find_function(suffix, q)
         cname = q.split(".")[0]
+        if cname == "ServerBase":
+            owner, fn = pm.find_method("ServerBase", q.split(".", 1)[1])
+            rel = pm.path_of(owner)
+        else:
+            rel, fn = pm.find_function(suffix, q)
         B = Bound(fn, lambda name, _c=cname: pm.find_method(_c, name)[1],
                   lambda name: pm.functions[name][1] if name in pm.functions else None)
         writes = [n for n in ast.walk(fn) if isinstance(n, ast.Assign) and norm(n.targets[0]) == "self.nb_of_instances"]
